@@ -24,7 +24,8 @@
 From Coq Require Import List Arith Bool.
 Import ListNotations.
 From TI Require Import lib.Sched model.Locks model.LocksSpec model.LocksTie
-  proofs.LocksProofs proofs.LocksTieProofs.
+  proofs.LocksProofs proofs.LocksTieProofs
+  model.LockSites gen.LockRegions proofs.LockRegionsProofs model.Exchange proofs.ExchangeProofs.
 
 (** no two threads (of whatever processes) are inside synchronized bodies at once *)
 Theorem C14_mutex :
@@ -100,3 +101,40 @@ Theorem C14_model_traces_pass_the_oracle :
   forall c, obs_ok (model_trace c false) = true.
 Proof. exact model_trace_accepted. Qed.
 Print Assumptions C14_model_traces_pass_the_oracle.
+
+(** TRANSLATED obligation (T).  [lock_regions] is generated from the library's source by
+    harness/tx/tx_locks.py (fail-closed; vocabulary model/LockSites.v): one entry per place
+    where the terminal is touched.  The theorem says, by computation on that table:
+    every use of the OS layer on the terminal's file descriptor ([os.read], [os.write],
+    [termios.tc*], the fd handed to [select]) is lexically inside
+    [with _tty_lock, _tty_lock:] or inside a [@lock_tty] function; and every read that
+    CONTINUES an exchange (a [read_tty] / [read_tty_all] call after a [query_terminal] /
+    [write_tty] call of the same function: the reply is not read all at once) is held by
+    the SAME region as the call it continues — [query_terminal], [get_fg_bg_colors],
+    [get_terminal_name_version]; [get_cell_size] and [read_tty_all] make ONE synchronized
+    call that reads the whole reply.  Together with C14_mutex (holds never overlap) this
+    is the discipline [disc_ok] of the next theorem.
+    Trusts: the translator's reading of Python scoping (lexical regions; a nested def or
+    lambda is not held by what encloses it; names are not rebound — refused otherwise),
+    that the four synchronized functions are only reached through these call sites inside
+    the package, and that a region is left by releasing the lock ([with] semantics). *)
+Theorem C14_all_terminal_io_under_lock : forallb io_locked lock_regions = true.
+Proof. exact all_terminal_io_under_lock. Qed.
+Print Assumptions C14_all_terminal_io_under_lock.
+
+(** the table is not empty or truncated: all seven terminal functions of utils.py were
+    seen and the three two-step exchanges were recognised as exchanges *)
+Theorem C14_lock_regions_cover : covers lock_regions = true.
+Proof. exact lock_regions_cover. Qed.
+Print Assumptions C14_lock_regions_cover.
+
+(** for EVERY trace of terminal I/O and lock events: if holds never overlap, the terminal
+    is only touched by the holder and nothing is pending when a hold is fully released
+    ([disc_ok]), then every byte read belongs to the reader's own reply and nothing is
+    lost ([xchg_ok]: the specification applied to the I/O observed on the real
+    [get_terminal_name_version] / [get_fg_bg_colors] / [get_cell_size] racing with a
+    non-flushing reader) *)
+Theorem C14_discipline_gives_own_reply :
+  forall tr, disc_ok tr = true -> xchg_ok tr = true.
+Proof. exact discipline_gives_own_reply. Qed.
+Print Assumptions C14_discipline_gives_own_reply.
